@@ -21,8 +21,10 @@ def vstructure_rules(rep, prog):
     S = Sym(prog)
     summ, _ = run_function(S, f)
     loops = sorted([(k, v) for k, v in S.loopinfo.items() if v["func"] == q], key=lambda kv: kv[0][1])
+    cartesian_dtype(rep, prog, [q])
     if len(loops) != 2:
-        raise Inconclusive("vstructures: expected a loop over colliders and a loop over parent pairs", f.node)
+        rep.unk("VS.shape", fwhere(f), "vstructures is no longer a loop over colliders with a loop over parent pairs; the v-structure rules do not read this idiom")
+        return
     (lo, outer), (li, inner) = loops
     c = ("elem", outer["iter"])
     # 1. pre-filter
@@ -130,6 +132,10 @@ def moral_rules(rep, prog):
 
 
 def run(prog, rep, tier):
+    # the moral graph is built by writing into the skeleton it was handed: that skeleton must be its own array, not one that
+    # skeleton() keeps (a cache) or that belongs to the caller
+    from .common import no_foreign_writes
+    no_foreign_writes(rep, prog, U + "moral_graph", rule="OWN.moral")
     node_label_truthiness(rep, prog, [U + n_ for n_ in ['vstructures', 'moral_graph', 'is_clique', 'is_complete', 'degrees', 'induced_subgraph', 'only_directed', 'only_undirected', 'skeleton']])
     isin_over_sets(rep, prog, [U + n_ for n_ in ['vstructures', 'moral_graph', 'is_clique', 'is_complete', 'degrees', 'induced_subgraph', 'only_directed', 'only_undirected', 'skeleton']])
     PW.rule_decompositions(prog, rep)
